@@ -12,7 +12,7 @@ def build_mesh(desc, tags=True):
     t = np.array(desc['t'], dtype=np.int64)
     # how the caller happens to hold the arrays (a function of the descriptor, so a case stays reproducible): C-ordered,
     # Fortran-ordered (e.g. the transpose of a points-by-coordinates table), non-contiguous views, 32-bit connectivity
-    mem = (p.shape[1] + 3 * t.shape[1]) % 4
+    mem = (p.shape[1] + 3 * t.shape[1]) % 5
     if mem == 1:
         p, t = np.asfortranarray(p), np.asfortranarray(t)
     elif mem == 2:
@@ -21,6 +21,8 @@ def build_mesh(desc, tags=True):
     elif mem == 3:
         t = t.astype(np.int32)
         p = np.ascontiguousarray(p.T).T
+    elif mem == 4:
+        t = t.astype(np.uint64)            # unsigned connectivity (what some readers and np.unique(..., return_inverse) pipelines give)
     cls1 = getattr(skfem, CLS1[kind])
     kw = {}
     if desc.get('sort_t') is False:
@@ -102,7 +104,17 @@ def build_element(desc):
     if c == 'ElementDG':
         return E.ElementDG(build_element(desc['of']))
     if c == 'ElementComposite':
-        return E.ElementComposite(*[build_element(d) for d in desc['of']])
+        # components given by identical descriptors are one shared instance in every other case (e * e is legal and common)
+        import json as _json
+        built, keys = [], []
+        for d in desc['of']:
+            k = _json.dumps(d, sort_keys=True)
+            if k in keys and (desc.get('share') or len(k) % 2 == 0):
+                built.append(built[keys.index(k)])
+            else:
+                built.append(build_element(d))
+            keys.append(k)
+        return E.ElementComposite(*built)
     cls = getattr(E, c)
     if 'p' in desc:
         return cls(desc['p'])
